@@ -99,42 +99,79 @@ def _write_sources(root, files, mtime):
 
 
 def _read(path):
+    """file content, byte-exact (undecodable bytes survive as surrogate escapes); None if absent"""
     try:
-        with open(path, encoding="utf-8") as fh:
-            return fh.read()
+        with open(path, "rb") as fh:
+            return fh.read().decode("utf-8", "surrogateescape")
     except FileNotFoundError:
         return None
 
 
+def _write_extra(root, extra):
+    for rel, text in (extra or {}).items():
+        path = os.path.join(root, rel)
+        os.makedirs(os.path.dirname(path), exist_ok=True)
+        with open(path, "w", encoding="utf-8") as fh:
+            fh.write(text)
+
+
+def do_client(job):
+    from ariadne_codegen.main import client
+
+    os.chdir(job["dir"])
+    out = io.StringIO()
+    try:
+        with contextlib.redirect_stdout(out):
+            client(job["config"])
+        return {"ok": True}
+    except BaseException as e:  # noqa: BLE001
+        return {"ok": False, "error": f"{type(e).__name__}: {str(e)[:300]}"}
+
+
 def do_history(job):
-    """a sequence of graphql_schema() runs in ONE project directory; every step is also generated in a fresh
-    directory from the same inputs"""
+    """a sequence of strategy runs in ONE project directory and ONE process: graphql_schema() steps, with
+    main.client() runs in between"""
     out = []
     prev = None
-    for k, st in enumerate(job["steps"]):
+    for st in job["steps"]:
         rec = {}
         # a step that does not change the schema leaves its files alone (they stay older than the target)
         if not (st["files"] == prev and st["mtime"] is None):
             _write_sources(job["dir"], st["files"], st["mtime"])
         prev = st["files"]
-        rec["run"] = do_gen({"dir": job["dir"], "config": st["config"]})
-        target = st["config"]["tool"]["ariadne-codegen"]["target_file_path"]
-        rec["text"] = _read(os.path.join(job["dir"], target))
+        _write_extra(job["dir"], st.get("extra"))
+        if st.get("kind") == "client":
+            rec["client"] = do_client({"dir": job["dir"], "config": st["config"]})
+        else:
+            rec["run"] = do_gen({"dir": job["dir"], "config": st["config"]})
+            target = st["config"]["tool"]["ariadne-codegen"]["target_file_path"]
+            rec["text"] = _read(os.path.join(job["dir"], target))
         rec["others"] = {t: _read(os.path.join(job["dir"], t)) is not None for t in job["targets"]}
-        fresh = os.path.join(job["dir"], f"fresh{k}")
-        os.makedirs(os.path.join(fresh, os.path.dirname(target)) if os.path.dirname(target) else fresh)
-        _write_sources(fresh, st["files"], None)
-        rec["fresh_run"] = do_gen({"dir": fresh, "config": st["config"]})
-        rec["fresh_text"] = _read(os.path.join(fresh, target))
         out.append(rec)
     os.chdir("/")
     return out
 
 
+def do_fresh(job):
+    """one graphql_schema() run in a directory of its own; also lists what is left next to the target"""
+    target = job["config"]["tool"]["ariadne-codegen"]["target_file_path"]
+    tdir = os.path.join(job["dir"], os.path.dirname(target))
+    os.makedirs(tdir, exist_ok=True)
+    _write_sources(job["dir"], job["files"], None)
+    rec = {"run": do_gen({"dir": job["dir"], "config": job["config"]})}
+    rec["text"] = _read(os.path.join(job["dir"], target))
+    rec["listing"] = sorted(os.listdir(tdir))
+    import locale
+
+    rec["encoding"] = locale.getpreferredencoding(False)
+    os.chdir("/")
+    return rec
+
+
 def main():
     mode = sys.argv[1]
     jobs = json.load(sys.stdin)
-    fn = {"gen": do_gen, "load": do_load, "history": do_history}[mode]
+    fn = {"gen": do_gen, "load": do_load, "history": do_history, "fresh": do_fresh}[mode]
     out = []
     real_stdout = sys.stdout
     for j in jobs:
